@@ -56,6 +56,11 @@ static Crystal_Array *wf_array(void)
 {
   int na, nc, i;
   Crystal_Array *arr = malloc(sizeof(Crystal_Array));
+#ifdef SHAPE_NA
+  /* one query per shape (capacity, fill level): with constant shapes the allocation sizes and loop bounds are concrete;
+   * names, cells and atoms stay symbolic.  The shapes 0/0 .. NALLOC/NALLOC together cover every state within the bound. */
+  na = SHAPE_NA; nc = SHAPE_NC;
+#endif
   __CPROVER_assume(arr != NULL && na >= 0 && na <= NALLOC && nc >= 0 && nc <= na);
   arr->n_alloc = na; arr->n_crystal = nc;
   arr->crystal = na ? malloc(na * sizeof(Crystal_Struct)) : NULL;
@@ -109,7 +114,7 @@ void lemma_AddCrystal(void)
       Crystal_Struct *s = &arr->crystal[i];
       __CPROVER_assert(s->name != nm && s->atom != at, "the stored crystal is an independent copy (no memory shared with the caller's struct)");
       __CPROVER_assert(s->n_atom == 2 && s->a == c.a && s->b == c.b && s->c == c.c && s->alpha == c.alpha && s->beta == c.beta && s->gamma == c.gamma, "stored with the geometry it was given");
-      __CPROVER_assert(s->atom[0].Zatom == at[0].Zatom && s->atom[1].Zatom == at[1].Zatom && s->atom[1].fraction == at[1].fraction, "stored with the atoms it was given");
+      __CPROVER_assert(s->atom[0].Zatom == at[0].Zatom && s->atom[1].Zatom == at[1].Zatom && __CPROVER_equal(s->atom[1].fraction, at[1].fraction) && __CPROVER_equal(s->atom[0].x, at[0].x), "stored with the atoms it was given");
       __CPROVER_assert(__CPROVER_equal(s->volume, Crystal_UnitCellVolume(s, NULL)), "stored with the recomputed cell volume");
     }
     if (nc0 == na0) __CPROVER_assert(0, "CANARY growth beyond capacity");
